@@ -580,3 +580,38 @@ def possible_fields(fn, expr):
             return None
         out.add((k[1], k[2]))
     return out
+
+
+def may_flow_from(fn, expr, pred, depth=6, _seen=None):
+    """May the value of `expr` come from a node satisfying pred, directly or through copies between locals
+    (`a = grow(..)`, `r = a`, `x = r`; also through the locals an inlined helper introduces)?"""
+    if expr is None or depth < 0:
+        return False
+    if any(pred(m) for m in expr.walk()):
+        return True
+    seen = _seen if _seen is not None else set()
+    for m in expr.walk():
+        if m.k == "DeclRefExpr" and m.did and m.dk in ("local", "param") and m.did not in seen:
+            seen.add(m.did)
+            for kind, node, val in fn.defs().get(m.did, []):
+                if kind in ("assign", "init") and val is not None and may_flow_from(fn, val, pred, depth - 1, seen):
+                    return True
+    return False
+
+
+def field_load(field, rec=None):
+    """predicate: an rvalue read of member `field` -- the implicit lvalue-to-rvalue conversion of `x->field` / `x.field`, or an explicit
+    atomic load through `&x->field` (atomic_load / atomic_load_explicit): the two spellings are the same access"""
+    from core import atomic_kind, strip_parens
+    def p(n):
+        if n.k == "ImplicitCastExpr" and n.ck == "LValueToRValue":
+            m = strip(n)
+        elif n.k == "AtomicExpr" and atomic_kind(n.aop) == "load" and n.ptr is not None:
+            m = strip(n.fn.nodes[n.ptr])
+            if m is None or m.k != "UnaryOperator" or m.op != "&":
+                return False
+            m = strip(m.kids[0])
+        else:
+            return False
+        return m is not None and m.k == "MemberExpr" and m.field == field and (rec is None or m.rec == rec)
+    return p
